@@ -98,14 +98,38 @@ def r1_checkers(ctx):
     ctx.check("R1", qn + "|raises|wider-than-360", True if wide else False, "|E - W| > 360 raises", bad="regions wider than 360 degrees are accepted", fn=qn)
     qn = "verde.coordinates._check_geographic_coordinates"
     r = [p for p in ctx.paths(qn) if p.exit == "raise"]
-    def arr_bounds(c, lo, hi, i):
-        txt = [x for x in walk(c) if x[0] == "cmp"]
-        def arr(t, which):
-            return t == Q.sub(CO, i) or Q.minmax_of(t) == (which, Q.sub(CO, i))        # np.any(lon > 360)  ==  lon.max() > 360
-        return any(x[1] == ">" and x[3] == const(hi) and arr(x[2], "max") for x in txt) and any(x[1] == "<" and x[3] == const(lo) and arr(x[2], "min") for x in txt)
-    ctx.check("R1", qn + "|raises|longitude-range", True if any(p.conds and arr_bounds(p.conds[-1][0], -180, 360, 0) for p in r) else False, "longitudes outside [-180, 360] raise", bad="the longitude range test is missing or uses other limits", fn=qn)
-    ctx.check("R1", qn + "|raises|latitude-range", True if any(p.conds and arr_bounds(p.conds[-1][0], -90, 90, 1) for p in r) else False, "latitudes outside [-90, 90] raise", bad="the latitude range test is missing or uses other limits", fn=qn)
+    def arr_bounds(lo, hi, i):
+        """the raising decisions, taken together, reject component i above hi and below lo.  Decisions are atoms, so the two halves of
+        `any(x > hi) or any(x < lo)` are the last decisions of two raising paths"""
+        comp = Q.sub(CO, i)
 
+        def arr(t, which):
+            return t == comp or Q.minmax_of(t) == (which, comp)        # np.any(lon > 360)  ==  lon.max() > 360
+        hi_ok = lo_ok = False
+        other = mention = False
+        for p in r:
+            if not p.conds:
+                continue
+            c, v = p.conds[-1]
+            if comp not in set(walk(c)):
+                continue
+            mention = True
+            for x in walk(c):
+                if not (isinstance(x, tuple) and x and x[0] == "cmp" and x[1] in ("<", "<=", ">", ">=") and is_const(x[3]) and comp in set(walk(x[2]))):
+                    continue
+                if v and x[1] == ">" and x[3] == const(hi) and arr(x[2], "max"):
+                    hi_ok = True
+                elif v and x[1] == "<" and x[3] == const(lo) and arr(x[2], "min"):
+                    lo_ok = True
+                elif v and (arr(x[2], "max") or arr(x[2], "min")) and isinstance(x[3][1], (int, float)) and x[3][1] not in (lo, hi):
+                    other = True
+        if hi_ok and lo_ok:
+            return True
+        if other or not mention:
+            return False
+        return None
+    ctx.check("R1", qn + "|raises|longitude-range", arr_bounds(-180, 360, 0), "longitudes outside [-180, 360] raise", bad="the longitude range test is missing or uses other limits", fn=qn)
+    ctx.check("R1", qn + "|raises|latitude-range", arr_bounds(-90, 90, 1), "latitudes outside [-90, 90] raise", bad="the latitude range test is missing or uses other limits", fn=qn)
 
 def r2_r3_r4(ctx):
     qn = LC
